@@ -1949,3 +1949,7 @@ mod builtins {
 
 #[cfg(feature = "builtins")]
 pub use self::builtins::*;
+
+#[cfg(kani)]
+#[path = "/verif/kani/filters.rs"]
+mod verif_kani;
